@@ -52,6 +52,7 @@ struct MemFile
   std::vector<WriteRec> log;
   long fail_at = -1; // >= 0: every read at or beyond this offset fails with EIO (an unreadable stretch of the input)
   bool fail_once = false; // the error is transient: only the first such read fails
+  long wfail_at = -1;     // >= 0: the stream takes this many bytes in all; what goes beyond is not written (ENOSPC)
 };
 static ssize_t mf_read(void *c, char *buf, size_t n)
 {
@@ -80,6 +81,17 @@ static ssize_t mf_write(void *c, const char *buf, size_t n)
   allocfault::Exempt af_;
   MemFile *m = (MemFile *)c;
   m->tick("write");
+  if (m->wfail_at >= 0 && (long)m->written_bytes + (long)n > m->wfail_at)
+  {
+    // device full: take what still fits (a short write), nothing afterwards
+    long room = m->wfail_at - (long)m->written_bytes;
+    if (room <= 0)
+    {
+      errno = ENOSPC;
+      return 0; // fopencookie: 0 reports the error to stdio
+    }
+    n = (size_t)room;
+  }
   m->writes++;
   m->written_bytes += n;
   if (n > (1u << 28))
@@ -497,6 +509,7 @@ OpOut encrypt(const bytes &plain, const bytes &key, const bytes &seed, int cmode
   in.d = plain;
   in.fail_at = pc.in_fail_at;
   in.fail_once = pc.in_fail_once;
+  out.wfail_at = pc.out_fail_at;
   out.logging = pc.want_log;
   FILE *fi = mf_open(&in, "rb");
   FILE *fo = mf_open(&out, "wb+", pc.outbuf);
@@ -521,6 +534,7 @@ OpOut decrypt(const bytes &file, const bytes &key, const PipeCfg &pc)
   in.d = file;
   in.fail_at = pc.in_fail_at;
   in.fail_once = pc.in_fail_once;
+  out.wfail_at = pc.out_fail_at;
   out.logging = pc.want_log;
   FILE *fi = mf_open(&in, "rb");
   FILE *fo = mf_open(&out, "wb+", pc.outbuf);
